@@ -174,6 +174,7 @@ def run_item(item, ctx, host_case=None):
     A.CUR['case'] = case
     A.CUR['intended_operands'] = None
     _frng = random.Random(repr(item) + repr((host_case or {}).get('rseed')))
+    A.CUR['omit_defaults'] = _frng.random() < 0.5
     if be:
         ctx.count('endian:big')
     if m is not None and n != m:
@@ -185,26 +186,26 @@ def run_item(item, ctx, host_case=None):
             ctx.count('mulmode:' + what)
             if what == 'KARATSUBA' and (max(n, m) >= 20 or max(n, m) == 18):
                 ctx.count('reach:karatsuba_recursive')
-            g = ar.generate_mul(n, m, type=ar.MulMode[what], big_endian=be)
+            g = ar.generate_mul(n, m, type=ar.MulMode[what], **A.be_kwargs(be))
             if n * m <= 64:
                 A.own_and_edit(g, random.Random(n * 100 + m))
-                ar.generate_mul(n, m, type=ar.MulMode[what], big_endian=be)
+                ar.generate_mul(n, m, type=ar.MulMode[what], **A.be_kwargs(be))
         elif what == 'square':
             if n >= 48 and n not in (49, 53):
                 ctx.count('reach:square_split')
-            ar.generate_square(n, type=ar.SquareMode.DEFAULT, big_endian=be)
+            ar.generate_square(n, type=ar.SquareMode.DEFAULT, **A.be_kwargs(be))
         elif what == 'square_pow2':
-            g = ar.generate_square(n, type=ar.SquareMode.POW2_M1, big_endian=be)
+            g = ar.generate_square(n, type=ar.SquareMode.POW2_M1, **A.be_kwargs(be))
             if n <= 8:
                 A.own_and_edit(g, random.Random(n))
-                ar.generate_square(n, type=ar.SquareMode.POW2_M1, big_endian=be)
+                ar.generate_square(n, type=ar.SquareMode.POW2_M1, **A.be_kwargs(be))
         elif what in ('add_square', 'add_square_pow2_m1'):
             host = netgen.from_description(host_case['host'])
             with monitor.suspended():
                 c = netgen.build(host)
             ctx.count('host:' + host_case['mode'])
             A.CUR['intended_operands'] = [list(host_case['operands'][0])]
-            getattr(ar, what)(c, A.flavour(_frng, host_case['operands'][0], ctx), big_endian=be)
+            getattr(ar, what)(c, A.flavour(_frng, host_case['operands'][0], ctx), **A.be_kwargs(be))
         else:
             if host_case:
                 host = netgen.from_description(host_case['host'])
@@ -223,9 +224,9 @@ def run_item(item, ctx, host_case=None):
                 ctx.count('reach:karatsuba_recursive')
             A.CUR['intended_operands'] = [list(a), list(b)]
             if host_case and host_case.get('same_list_object'):
-                first = getattr(ar, what)(c, a, b, big_endian=be)
+                first = getattr(ar, what)(c, a, b, **A.be_kwargs(be))
             else:
-                first = getattr(ar, what)(c, A.flavour(_frng, a, ctx), A.flavour(_frng, b, ctx), big_endian=be)
+                first = getattr(ar, what)(c, A.flavour(_frng, a, ctx), A.flavour(_frng, b, ctx), **A.be_kwargs(be))
             # a circuit under construction: further generator calls on the same circuit while the first result is still
             # waiting to be consumed (p = a*b, then q = c*d, then p*q or p+q ...) - each call is judged by the same
             # monitor, for which the earlier result is one more pre-existing gate
@@ -270,7 +271,7 @@ def run_shard(spec, ctx):
         ctx.info['small_space_parts'] = 1
     elif spec['kind'] == 'skewed':
         # skinny / skewed shapes, systematically: one narrow and one wide operand, every mode (both operand orders)
-        grid = [(w, nr, wd, o) for w in ['DEFAULT', 'KARATSUBA', 'ALTER', 'DADDA', 'WALLACE', 'POW2_M1']
+        grid = [(w, nr, wd, o) for w in ['DEFAULT', 'KARATSUBA', 'ALTER', 'DADDA', 'WALLACE', 'POW2_M1', 'add_mul_karatsuba']
                 for nr in spec['narrow'] for wd in spec['wide'] for o in (0, 1)]
         for k, (what, narrow, wide, o) in enumerate(grid):
             if k % spec['parts'] != spec['part']:
